@@ -3,6 +3,7 @@
 HARNESSES = {
     "numeric_pbt": dict(sources=["numeric_pbt.cpp"], variant="san"),
     "codec_pbt": dict(sources=["codec_pbt.cpp"], variant="san"),
+    "api_pbt": dict(sources=["api_pbt.cpp"], variant="san"),
 }
 
 _CODEC_ESS_KINDS = ["kind=v2.track_data", "kind=v2.beat_data", "kind=v2.quick_cues", "kind=v2.loops", "kind=v2.overview_waveform",
